@@ -547,3 +547,133 @@ Proof.
     split; [exact T1|]. split; [|exact T4]. split; [|rewrite T3; exact I].
     revert T2. apply pending_ok_ext; reflexivity.
 Qed.
+
+(* ================= 6. consequences for single entities ================= *)
+
+(* a non-empty despawn list forces an update message *)
+Lemma sfc_update_present_despawn c s this_run cl p cl' out e :
+  send_for_client c s this_run cl p = Ok (cl', out) -> In e (sfc_despawns s cl) ->
+  co_update out = Some (sfc_upd s this_run cl).
+Proof.
+  intros H Hin. apply sfc_result in H. destruct H as [_ ->]. cbn [co_update].
+  unfold sfc_has_upd, update_is_empty, sfc_upd. cbn [u_maps u_despawns u_removals u_changes].
+  destruct (sfc_despawns s cl); [destruct Hin|].
+  destruct (sort_by_key (sc_pending_map cl)); reflexivity.
+Qed.
+
+(* the visibility of the record after the tick is the one `collect_changes` read *)
+Lemma visible_after_tick c s run cl p cl' out e :
+  match sc_vis cl with Some v => vis_legal v | None => True end ->
+  send_for_client c s run cl p = Ok (cl', out) ->
+  vis_visible (sc_vis cl') e = vis_visible (sfc_vis1 s cl) e.
+Proof.
+  intros Hl H. apply sfc_result in H. destruct H as [-> _]. cbn [sc_vis].
+  destruct (sc_vis cl) as [v|] eqn:Hvis.
+  - rewrite (sv_vis1 s cl v Hvis). cbn [vis_visible].
+    destruct (update_legal _ (mid_legal s v Hl)) as [_ Hup]. apply Hup.
+  - rewrite (nv_vis1 s cl Hvis). reflexivity.
+Qed.
+
+Lemma pending_ok_v_legal s cl st : pending_ok_v s cl st ->
+  match sc_vis cl with Some v => vis_legal v | None => True end.
+Proof. intros [_ Hv]. destruct (sc_vis cl); [apply Hv|exact I]. Qed.
+
+(* (1) an entity the client holds and that is hidden from it after the tick (visibility lost since the
+   last tick, whatever else happened to the entity) gets a despawn record in this tick's update message,
+   and the message is sent *)
+Theorem known_hidden_is_despawned c s run cl p cl' out st e :
+  pending_ok_v s cl st -> send_for_client c s run cl p = Ok (cl', out) ->
+  al_get e st <> None -> vis_visible (sc_vis cl') e = false ->
+  exists u, co_update out = Some u /\ In e (u_despawns u).
+Proof.
+  intros Hpv H Hk Hh. rewrite (visible_after_tick c s run cl p cl' out e (pending_ok_v_legal _ _ _ Hpv) H) in Hh.
+  destruct Hpv as [Hp Hvo]. destruct (sc_vis cl) as [v|] eqn:Hvis.
+  - destruct Hvo as [Hleg Hprev]. rewrite (sv_vis1 s cl v Hvis) in Hh. cbn [vis_visible] in Hh.
+    destruct (ent_facts s cl st v Hvis Hp Hleg Hprev e) as [_ [F2 _]].
+    pose proof (proj1 (mem_N_In _ _) (F2 Hk Hh)) as Hin.
+    exists (sfc_upd s run cl). split; [eapply sfc_update_present_despawn; eassumption|exact Hin].
+  - rewrite (nv_vis1 s cl Hvis) in Hh. discriminate.
+Qed.
+
+(* ... in the terms of the visibility BEFORE the tick: hidden now *)
+Corollary lost_visibility_is_despawned c s run cl p cl' out st v e :
+  sc_vis cl = Some v -> pending_ok_v s cl st -> send_for_client c s run cl p = Ok (cl', out) ->
+  al_get e st <> None -> is_visible v e = false ->
+  exists u, co_update out = Some u /\ In e (u_despawns u) /\ v_prev v e = true.
+Proof.
+  intros Hvis Hpv H Hk Hh. pose proof Hpv as [Hp Hvo]. rewrite Hvis in Hvo. destruct Hvo as [Hleg Hprev].
+  destruct (Hleg e) as [cur [prev Hv]]. destruct (view_reads v e cur prev Hv) as [Hpr [Hc _]].
+  destruct (mid_spec s v e cur prev Hv) as [_ [_ [_ Hlost]]]. cbv zeta in Hlost.
+  assert (Hin : In e (sfc_despawns s cl)).
+  { rewrite (sv_despawns s cl v Hvis). apply in_or_app. left. apply mem_N_In. rewrite Hlost.
+    rewrite <- Hpr, <- Hc, (Hprev e Hk), Hh. reflexivity. }
+  exists (sfc_upd s run cl). split; [eapply sfc_update_present_despawn; eassumption|]. split; [exact Hin|apply Hprev; exact Hk].
+Qed.
+
+(* ... and by nothing else: a despawn record is either a buffered despawn (`Replicated` removed) or an
+   entity this client was told about at the last tick and that is hidden from it now *)
+Theorem despawn_records_explained c s run cl p cl' out u e :
+  match sc_vis cl with Some v => vis_legal v | None => True end ->
+  send_for_client c s run cl p = Ok (cl', out) -> co_update out = Some u -> In e (u_despawns u) ->
+  In e (sv_despawn_buf s) \/
+  exists v, sc_vis cl = Some v /\ v_prev v e = true /\ is_visible v e = false.
+Proof.
+  intros Hl H Hu Hin. rewrite (sfc_update_some _ _ _ _ _ _ _ _ H Hu) in Hin. cbn [sfc_upd u_despawns] in Hin.
+  destruct (sc_vis cl) as [v|] eqn:Hvis.
+  - destruct (Hl e) as [cur [prev Hv]]. destruct (view_reads v e cur prev Hv) as [Hpr [Hc _]].
+    destruct (mid_spec s v e cur prev Hv) as [_ [_ [Hloop Hlost]]]. cbv zeta in Hloop, Hlost.
+    rewrite (sv_despawns s cl v Hvis) in Hin. apply in_app_or in Hin. destruct Hin as [Hin | Hin].
+    + right. exists v. apply mem_N_In in Hin. rewrite Hlost in Hin. apply andb_prop in Hin. destruct Hin as [H1 H2].
+      split; [reflexivity|]. rewrite Hpr, Hc. split; [exact H1|]. destruct cur; [discriminate|reflexivity].
+    + left. apply mem_N_In in Hin. rewrite Hloop in Hin. apply (count_occ_In N.eq_dec).
+      destruct (count_occ N.eq_dec (sv_despawn_buf s) e); [discriminate|lia].
+  - left. rewrite (nv_despawns s cl Hvis) in Hin. exact Hin.
+Qed.
+
+(* the changes array, any client *)
+Lemma changed_entry_any s cl run e x madd en : ents_wf s -> In (e, x, madd) (replicated_ents s) ->
+  (In (e, en) (changed_set s run cl) <->
+   ec_entry (cep (sv_last_run s) (sv_tick s) (sv_removal_buf s) (mutation_tick (sfc_ticks1 s cl) e)
+                 (vis_state_of (sfc_vis1 s cl) e) e x madd) = Some en).
+Proof.
+  intros Hwf Hin. rewrite changed_set_eq, In_entries_of, (sfc_ecs_nodup s run cl Hwf).
+  split.
+  - intros [ec [Hi Hen]]. apply in_map_iff in Hi. destruct Hi as [[[e' x'] madd'] [Heq Hi]].
+    cbn [ent_id fst snd] in Heq. injection Heq as -> <-.
+    destruct (repl_ents_unique _ _ _ _ _ _ Hwf Hin Hi) as [-> ->]. exact Hen.
+  - intros Hen. eexists. split; [|exact Hen]. apply in_map_iff. exists (e, x, madd). split; [reflexivity|exact Hin].
+Qed.
+
+(* (2) a replicated entity the client does not hold and that is visible to it after the tick (visibility
+   gained, or a new entity, or a late joiner) is sent whole, in this tick's update message *)
+Theorem unknown_visible_is_sent_whole c s run cl p cl' out st e x :
+  ents_wf s -> pending_ok_v s cl st -> send_for_client c s run cl p = Ok (cl', out) ->
+  repl_get s e = Some x -> al_get e st = None -> vis_visible (sc_vis cl') e = true ->
+  exists u, co_update out = Some u /\ In (e, all_comps x) (u_changes u).
+Proof.
+  intros Hwf Hpv H Hr Hn Hv. rewrite (visible_after_tick c s run cl p cl' out e (pending_ok_v_legal _ _ _ Hpv) H) in Hv.
+  destruct (proj1 (repl_get_spec s e x Hwf) Hr) as [madd Hin].
+  assert (Hmt : mutation_tick (sfc_ticks1 s cl) e = None).
+  { destruct (sfc_ticks1_shrunk s cl) as [_ [_ [_ Hsh]]]. apply Hsh.
+    destruct (mutation_tick (sc_ticks cl) e) eqn:Em; [|reflexivity]. exfalso.
+    apply (proj1 (pk_known _ _ _ (pv_pending _ _ _ Hpv) e)); [rewrite Em; discriminate|exact Hn]. }
+  assert (Hc : In (e, all_comps x) (changed_set s run cl)).
+  { apply (changed_entry_any s cl run e x madd _ Hwf Hin). rewrite Hmt, cep_full; [reflexivity| |left; reflexivity].
+    apply vis_visible_state. exact Hv. }
+  exists (sfc_upd s run cl). split; [eapply sfc_update_present; eassumption|exact Hc].
+Qed.
+
+(* nothing about an entity hidden after the tick is in the message except a despawn record *)
+Theorem hidden_entity_not_in_message c s run cl p cl' out u e :
+  match sc_vis cl with Some v => vis_legal v | None => True end ->
+  send_for_client c s run cl p = Ok (cl', out) -> co_update out = Some u ->
+  vis_visible (sc_vis cl') e = false ->
+  ~ In e (map fst (u_changes u)) /\ ~ In e (map fst (u_removals u)).
+Proof.
+  intros Hl H Hu Hv. rewrite (visible_after_tick c s run cl p cl' out e Hl H) in Hv. split.
+  - intros Hin. apply in_map_iff in Hin. destruct Hin as [[e' en] [Heq Hin]]. cbn in Heq. subst e'.
+    destruct (proj1 (changes_only_visible c s run cl p cl' out H) u e en Hu Hin) as [Hst _].
+    apply vis_visible_state in Hst. congruence.
+  - intros Hin. apply in_map_iff in Hin. destruct Hin as [[e' ks] [Heq Hin]]. cbn in Heq. subst e'.
+    destruct (removals_only_visible c s run cl p cl' out u e ks H Hu Hin) as [Hvv _]. congruence.
+Qed.
